@@ -1176,6 +1176,49 @@ fn oracle(run: &mut Run, w: &World, ip: IpAddr, rvar: f64, msg: &[u8], buf: usiz
             }
         }
     }
+    // ---------------- C18 (echo, byte level): a time answer echoes the request's poll byte and transmit timestamp
+    // (NTPv5: client cookie) literally, for every byte value; its reference timestamp is the server's own
+    // (receive time truncated to 2^7 s) or, only for an NTPv4 request carrying EXACTLY the upgrade marker, the marker
+    if kind == "time" && msg.len() >= 48 {
+        if let Some(p) = &out.parsed {
+            let h = &p.header;
+            let v = (h[0] >> 3) & 7;
+            if h[2] != msg[2] {
+                ofail(run, "c18_echo_poll", &attrs(abs), &format!("request poll byte {:#04x}, answer poll byte {:#04x}", msg[2], h[2]));
+            }
+            let want_origin = if v == 5 { &msg[24..32] } else { &msg[40..48] };
+            if h[24..32] != *want_origin {
+                ofail(run, "c18_echo_origin", &attrs(abs), "origin timestamp / client cookie is not the request's transmit timestamp / client cookie");
+            }
+            if v != 5 {
+                let reft = u64::from_be_bytes(h[16..24].try_into().unwrap());
+                let recv_ts = u64::from_be_bytes(h[32..40].try_into().unwrap());
+                let own = recv_ts >> 39 << 39;
+                // only `timestamp_response` (plain answers) returns the marker; NTS time answers never do
+                let exact_marker = v == 4 && !p.has_enc && &msg[16..24] == b"NTP5DRFT";
+                let ok = if exact_marker { &h[16..24] == b"NTP5DRFT" } else { reft == own };
+                if !ok {
+                    ofail(run, "c18_reference_ts", &attrs(abs), &format!("reference timestamp {:016x}: neither the server's ({:016x}) nor the marker for an exact-marker request (request had {})", reft, own, hex(&msg[16..24])));
+                }
+            }
+        }
+    }
+    // ---------------- C16 / C23 boundary: the fields the parser framed are those a plain walk with the MAC cut-off
+    // (a tail of at most 24 octets under NTPv4 is a MAC, whatever it looks like) frames
+    if (abs.parse == "ok" || abs.parse == "dec") && abs.version >= 4 {
+        let n_raw = raw_fields(msg, abs.version == 5).len();
+        let cnt = |k: &str| -> usize {
+            let v = abs.text.split(' ').find_map(|w| w.strip_prefix(&format!("{}=", k)).map(|v| v.to_string())).unwrap_or_default();
+            if v == "-" || v.is_empty() { 0 } else { v.split(',').count() }
+        };
+        // every successfully decrypted authenticator is one framed field that does not show in U / A
+        let n_enc = raw_fields(msg, abs.version == 5).iter().filter(|f| f.0 == 0x0404).count();
+        let n_inv = abs.text.split(' ').find_map(|w| w.strip_prefix("U=")).map(|v| v.split(',').filter(|t| *t == "x").count()).unwrap_or(0);
+        let n_parsed = cnt("U") + cnt("A") + (n_enc - n_inv.min(n_enc));
+        if n_parsed != n_raw {
+            ofail(run, "c16_field_framing", &attrs(abs), &format!("the parser framed {} fields, a walk with the MAC cut-off frames {}", n_parsed, n_raw));
+        }
+    }
     // ---------------- C18 (reflection, NTPv5 header): timescale, era and the reserved flag bits of an answer are the
     // server's own (UTC, era 0, no interleaved mode), whatever the request carried there
     if let Some(p) = &out.parsed {
@@ -1446,7 +1489,13 @@ fn header_v34(rng: &mut Rng, version: u8, mode: u8, upgrade: bool) -> Vec<u8> {
     let mut h = vec![0u8; 48];
     h[0] = ((rng.below(4) as u8) << 6) | (version << 3) | mode;
     h[1] = rng.below(17) as u8;
-    h[2] = *rng.pick(&[0u8, 4, 6, 10, 17, 0x7f, 0x80, 0xff]);
+    // poll byte: the whole byte range, one request in three with the top bit set
+    h[2] = match rng.below(6) {
+        0 => 0x80 | (rng.next_u64() as u8),
+        1 => *rng.pick(&[0x80u8, 0x81, 0xfe, 0xff]),
+        2 => rng.next_u64() as u8,
+        _ => *rng.pick(&[0u8, 4, 6, 10, 17, 0x7f]),
+    };
     h[3] = rng.next_u64() as u8;
     for b in &mut h[4..48] {
         *b = rng.next_u64() as u8;
@@ -1458,6 +1507,24 @@ fn header_v34(rng: &mut Rng, version: u8, mode: u8, upgrade: bool) -> Vec<u8> {
     }
     if upgrade {
         h[16..24].copy_from_slice(b"NTP5DRFT");
+    } else if version == 4 && rng.chance(1, 4) {
+        // near misses of the upgrade marker in the reference timestamp: only the EXACT marker is answered with it
+        let mut m = *b"NTP5DRFT";
+        match rng.below(5) {
+            0 => {
+                for b in &mut m[4..8] {
+                    *b = rng.next_u64() as u8;
+                }
+            }
+            1 => m[7] = rng.next_u64() as u8,
+            2 => m.copy_from_slice(b"NTP5NTP5"),
+            3 => {
+                let i = rng.usize(0, 63);
+                m[i / 8] ^= 1 << (i % 8);
+            }
+            _ => m[0..4].copy_from_slice(b"NTP4"),
+        }
+        h[16..24].copy_from_slice(&m);
     }
     h
 }
@@ -1466,7 +1533,12 @@ fn header_v5(rng: &mut Rng, mode: u8) -> Vec<u8> {
     let mut h = vec![0u8; 48];
     h[0] = ((rng.below(4) as u8) << 6) | (5 << 3) | mode;
     h[1] = rng.below(17) as u8;
-    h[2] = *rng.pick(&[0u8, 4, 6, 10, 17, 0x7f, 0x80, 0xff]);
+    h[2] = match rng.below(6) {
+        0 => 0x80 | (rng.next_u64() as u8),
+        1 => *rng.pick(&[0x80u8, 0x81, 0xfe, 0xff]),
+        2 => rng.next_u64() as u8,
+        _ => *rng.pick(&[0u8, 4, 6, 10, 17, 0x7f]),
+    };
     h[3] = rng.next_u64() as u8;
     for b in &mut h[4..12] {
         *b = rng.next_u64() as u8;
@@ -1504,6 +1576,16 @@ fn mode(rng: &mut Rng) -> u8 {
 }
 
 fn trailing_mac(rng: &mut Rng) -> Vec<u8> {
+    if rng.chance(1, 5) {
+        // the boundary of the MAC cut-off: a tail of exactly 20 / 24 / 28 octets that is FRAMED like an extension
+        // field (length word = tail length) of several types; up to 24 octets it is a MAC, not a field
+        let n = *rng.pick(&[20usize, 24, 24, 24, 28]);
+        let ty = *rng.pick(&[0x0104u16, 0x0104, 0x0204, 0x0304, 0x4242, 0x0404]);
+        let mut t = ty.to_be_bytes().to_vec();
+        t.extend_from_slice(&(n as u16).to_be_bytes());
+        t.extend(if ty == 0x0304 { vec![0u8; n - 4] } else { rng.bytes(n - 4) });
+        return t;
+    }
     match rng.below(10) {
         0 => rng.bytes(4),
         1 => rng.bytes(20),
